@@ -23,7 +23,11 @@
   __CPROVER_assigns(g_eval_n, __CPROVER_object_whole(g_eval_ret), __CPROVER_object_whole(g_eval_snap), __CPROVER_object_whole(g_eval_node), g_eval_payload, __exc, __exc_type, __exc_obj, VALUE_FIELDS(&g_operand0), VALUE_FIELDS(&g_operand1), VALUE_FIELDS(&g_operand2), VALUE_FIELDS(&g_operand3))
 
 /* C01: nothing but a BLOC runtime error leaves an evaluator */
-#define ENS_ONLY_RT  PROP(C01) __CPROVER_ensures(ONLY_RUNTIME_ERROR)
+#define ENS_ONLY_RT  PROP(C01) __CPROVER_ensures(ONLY_RUNTIME_ERROR) ENS_EVAL_IN_CTX
+/* C05 / C14: a node evaluates its children in the context it is itself evaluated in (for a program run in a clone: the clone) */
+#ifndef ENS_EVAL_IN_CTX
+#define ENS_EVAL_IN_CTX PROP(C05) __CPROVER_ensures(g_eval_n >= 1 ==> g_eval_ctx_seen == (const void *)ctx)
+#endif
 /* both children evaluated exactly once, left to right (no short cut) */
 #define ENS_EVAL_BOTH PROP(C05) __CPROVER_ensures((g_eval_n <= 2) && (g_eval_n >= 1 ==> g_eval_node[0] == this->arg1) && (g_eval_n == 2 ==> g_eval_node[1] == this->arg2) && (OK ==> g_eval_n == 2))
 /* arg1 first; arg2 at most once (short cut allowed) */
